@@ -996,7 +996,11 @@ def replay(run, info, path):
 def _snapshot(d):
     out = {}
     for fn in sorted(os.listdir(d)):
-        with open(os.path.join(d, fn), "rb") as fh:
+        pth = os.path.join(d, fn)
+        if os.path.isdir(pth):          # a generator that writes into a nested directory: part of what it left behind
+            out[fn + "/"] = repr(sorted(os.listdir(pth))).encode()
+            continue
+        with open(pth, "rb") as fh:
             out[fn] = fh.read()
     return out
 
